@@ -131,7 +131,7 @@ pub const AUTH_REPS: [&[u8]; 8] = [b"h", b"u@h", b"h:1", b"[::]", b"%68", b"", b
 fn authority_vs_rep<const N: usize, const K: usize>() {
     let t = Text::<N>::any();
     let a = t.bytes();
-    assume(tables::t_uri_authority_valid(a));
+    assume(tables::t_uri_authority_valid_k(a, N));
     let x = unsafe { uri::Authority::new_unchecked(a) };
     let r = AUTH_REPS[K];
     let y = unsafe { uri::Authority::new_unchecked(r) };
@@ -142,14 +142,14 @@ fn authority_vs_rep<const N: usize, const K: usize>() {
 
 // @h prop=C07,C08 tier=quick kind=check timeout=2400 mem=16 bound="uri::Authority <= 6 bytes x representative 'u@h' (both orders)" encodes="PartialEq/Ord/Hash for uri::Authority via AuthorityParts (derived);AuthorityImpl::parts"
 #[cfg_attr(kani, kani::proof)]
-#[cfg_attr(kani, kani::unwind(9))]
+#[cfg_attr(kani, kani::unwind(10))]
 pub fn c08_authority_vs_rep1_n6() {
     authority_vs_rep::<6, 1>()
 }
 
 // @h prop=C07,C08 tier=quick kind=check timeout=2400 mem=16 bound="uri::Authority <= 6 bytes x representative 'h:1' (both orders)" encodes="same as c08_authority_vs_rep1_n6"
 #[cfg_attr(kani, kani::proof)]
-#[cfg_attr(kani, kani::unwind(9))]
+#[cfg_attr(kani, kani::unwind(10))]
 pub fn c08_authority_vs_rep2_n6() {
     authority_vs_rep::<6, 2>()
 }
@@ -159,7 +159,7 @@ pub const REF_REPS: [&[u8]; 10] = [b"s:", b"s://h/a?q#f", b"a", b"?", b"#", b"//
 fn uriref_vs_rep<const N: usize, const K: usize>() {
     let t = Text::<N>::any();
     let a = t.bytes();
-    assume(tables::t_uri_uriref_valid(a));
+    assume(tables::t_uri_uriref_valid_k(a, N));
     let x = unsafe { UriRef::new_unchecked(a) };
     let r = REF_REPS[K];
     let y = unsafe { UriRef::new_unchecked(r) };
@@ -170,7 +170,7 @@ fn uriref_vs_rep<const N: usize, const K: usize>() {
 
 // @h prop=C07,C08 tier=quick kind=check timeout=3000 mem=24 bound="UriRef <= 5 bytes x representative 's:a/..' (both orders)" encodes="PartialEq/Ord/Hash for UriRef via UriRefParts (derived);UriRef::parts;Path/Authority/Query/Fragment comparisons"
 #[cfg_attr(kani, kani::proof)]
-#[cfg_attr(kani, kani::unwind(9))]
+#[cfg_attr(kani, kani::unwind(10))]
 #[cfg_attr(kani, kani::stub(smallvec::SmallVec::try_grow, crate::stubs::sv_try_grow))]
 #[cfg_attr(kani, kani::stub(smallvec::SmallVec::push, crate::stubs::sv_push))]
 pub fn c08_uriref_vs_rep6_n5() {
@@ -183,7 +183,7 @@ pub fn c08_uriref_vs_rep6_n5() {
 fn uri_views<const N: usize>() {
     let t = Text::<N>::any();
     let a = t.bytes();
-    assume(tables::t_uri_uri_valid(a));
+    assume(tables::t_uri_uri_valid_k(a, N));
     let u = unsafe { Uri::new_unchecked(a) };
     let r: &UriRef = u.borrow();
     let i: &Iri = u.borrow();
@@ -207,7 +207,7 @@ fn uri_views<const N: usize>() {
 
 // @h prop=C08 tier=quick kind=check timeout=3000 mem=24 bound="Uri text <= 6 bytes" encodes="Hash/PartialEq/PartialOrd for Uri,UriRef,Iri,IriRef,UriBuf on one text;Borrow impls"
 #[cfg_attr(kani, kani::proof)]
-#[cfg_attr(kani, kani::unwind(9))]
+#[cfg_attr(kani, kani::unwind(10))]
 #[cfg_attr(kani, kani::stub(smallvec::SmallVec::try_grow, crate::stubs::sv_try_grow))]
 #[cfg_attr(kani, kani::stub(smallvec::SmallVec::push, crate::stubs::sv_push))]
 pub fn c08_uri_views_n6() {
@@ -217,7 +217,7 @@ pub fn c08_uri_views_n6() {
 fn iri_views<const N: usize>() {
     let t = Text::<N>::any();
     let a = t.bytes();
-    assume(tables::t_iri_iri_valid(a));
+    assume(tables::t_iri_iri_valid_k(a, N));
     let u = unsafe { Iri::new_unchecked(as_str(a)) };
     let r: &IriRef = u.borrow();
     let hu = Stream::of(u);
@@ -233,7 +233,7 @@ fn iri_views<const N: usize>() {
 
 // @h prop=C08 tier=quick kind=check timeout=3000 mem=24 bound="Iri text <= 6 bytes (UTF-8)" encodes="Hash/PartialEq/PartialOrd for Iri,IriRef,IriBuf on one text;Borrow impls"
 #[cfg_attr(kani, kani::proof)]
-#[cfg_attr(kani, kani::unwind(9))]
+#[cfg_attr(kani, kani::unwind(10))]
 #[cfg_attr(kani, kani::stub(smallvec::SmallVec::try_grow, crate::stubs::sv_try_grow))]
 #[cfg_attr(kani, kani::stub(smallvec::SmallVec::push, crate::stubs::sv_push))]
 pub fn c08_iri_views_n6() {
